@@ -1,6 +1,10 @@
-"""C12 — an exercise checker never reports OK for a wrong answer."""
+"""C12 — an exercise checker never reports OK for a wrong answer, and a reported counterexample word is genuine."""
+import re
 import core
 import exercises as EX
+from gambatools.language_generator import compare_languages
+
+CEX = re.compile(r"Error: word '(.*)' should (not )?be accepted")
 
 META = {
     'level': 'proof',
@@ -27,6 +31,19 @@ def cases(ctx):
                 continue
             if not thorough or ctx.mine(i):
                 yield {'ex': ex_i, 'name': ex.name, 'inst': inst, 'seed': seed}
+    # compare_languages itself (the one place where the counterexample word is chosen): small sets of words, the empty word and
+    # several candidates of the same length on both sides
+    for i in range(300 if not thorough else 4000):
+        Sig = rng.choice(['ab', 'a', 'ab', 'abc', '01'])
+        pool = [''] + [a for a in Sig] + [a + b for a in Sig for b in Sig] + [rng.choice(Sig) * 3, rng.choice(Sig) + rng.choice(Sig) + rng.choice(Sig)]
+        k = rng.choice([0, 1, 2, 3, 4, 6])
+        A2 = sorted(set(rng.sample(pool, min(len(pool), k))))
+        A1 = set(A2)
+        for _ in range(rng.choice([0, 1, 1, 2, 3])):
+            w = rng.choice(pool)
+            A1 ^= {w}
+        if not thorough or ctx.mine(i):
+            yield {'cmp': True, 'A1': sorted(A1), 'A2': A2}
 
 
 def answers_for(c):
@@ -46,6 +63,8 @@ def answers_for(c):
 
 
 def lean_requests(c):
+    if c.get('cmp'):
+        return [{'op': 'compare_languages', 'A1': c['A1'], 'A2': c['A2']}]
     own, answers = answers_for(c)
     c['_answers'] = answers
     reqs = []
@@ -58,25 +77,85 @@ def lean_requests(c):
         except Exception:
             r = None
         t = ex.text_lean(c['inst'], a) if hasattr(ex, 'text_lean') else None
-        c['_slots'].append((r is not None, t is not None))
+        x = dict(t, op='chk_cex') if t is not None and hasattr(ex, 'langs') else None
+        c['_slots'].append((r is not None, t is not None, x is not None))
         if r is not None:
             reqs.append(r)
         if t is not None:
             reqs.append(t)
+        if x is not None:
+            reqs.append(x)
     return reqs
 
 
+def reported(out):
+    """the counterexample lines of a checker's output: [(word, extra)]; 'ε' stands for the empty word"""
+    res = []
+    for l in out.split('\n'):
+        m = CEX.fullmatch(l.strip())
+        if m:
+            res.append(('' if m.group(1) == 'ε' else m.group(1), m.group(2) is not None))
+    return res
+
+
+def judge_counterexample(w, extra, LA, LR, minimal=True):
+    """None if the reported word is a genuine difference of the right polarity (and of minimal length in its class), else what is wrong"""
+    pool = (LA - LR) if extra else (LR - LA)
+    if w not in pool:
+        if w in ((LR - LA) if extra else (LA - LR)):
+            return 'counterexample-wrong-polarity'
+        return 'counterexample-not-genuine'
+    if minimal and len(w) > min(len(v) for v in pool):
+        return 'counterexample-not-minimal'
+    return None
+
+
+def judge_cmp(ctx, c, answers):
+    A1, A2 = set(c['A1']), set(c['A2'])
+    got = core.call(compare_languages, set(A1), set(A2))
+    sub = {'cmp': True, 'A1': c['A1'], 'A2': c['A2']}
+    if 'ok' not in got:
+        ctx.violation('compare_languages-raises', {'case': sub, 'impl': got})
+        return
+    fb = got['ok']
+    rep = reported('\n'.join(fb))
+    bad = None
+    if A1 == A2:
+        if fb:
+            bad = 'feedback-for-equal-languages'
+    elif len(fb) != 1 or len(rep) != 1:
+        bad = 'no-single-counterexample-line'
+    else:
+        w, extra = rep[0]
+        bad = judge_counterexample(w, extra, A1, A2)
+        if bad is None and not extra and (A1 - A2):
+            bad = 'missing-word-reported-although-an-extra-word-exists'
+    if bad:
+        ctx.violation(bad, {'case': sub, 'impl': fb})
+    la = answers[0].get('ok', 'ERR') if isinstance(answers[0], dict) else 'ERR'
+    mine = None if not rep else [len(rep[0][0]), rep[0][1]]
+    model = None if la is None else ([len(la[0]), la[1]] if isinstance(la, list) else 'ERR')
+    if mine != model:
+        ctx.violation('correspondence:compare_languages', {'case': sub, 'impl': fb, 'model': answers[0]}, no_input=bad is None)
+    ctx.record('c12cmp/%s' % core.digest(sub), mine)
+    ctx.count('compare_languages:%s' % ('equal' if not fb else 'extra' if rep and rep[0][1] else 'missing'))
+    ctx.case(sub, A1 != A2)
+
+
 def judge(ctx, c, answers):
+    if c.get('cmp'):
+        return judge_cmp(ctx, c, answers)
     ex = EX.ALL[c['ex']]
     subs = c.get('_answers')
     if subs is None:
         _, subs = answers_for(c)
-        c['_slots'] = [(False, False)] * len(subs)
+        c['_slots'] = [(False, False, False)] * len(subs)
     it = iter(answers)
     res = []
-    for k, (a, (has_lean, has_text)) in enumerate(zip(subs, c['_slots'])):
+    for k, (a, (has_lean, has_text, has_cex)) in enumerate(zip(subs, c['_slots'])):
         la = next(it) if has_lean else None
         lt = next(it) if has_text else None
+        lx = next(it) if has_cex else None
         verdict, out = ex.check(c['inst'], a)
         try:
             crit = bool(ex.criterion(c['inst'], a))
@@ -105,7 +184,40 @@ def judge(ctx, c, answers):
             # the whole pipeline on text: library parsers + checker vs Gamba.Model.CheckText
             ctx.violation('correspondence:text:' + ex.name, {'case': c_min(c), 'answer': a, 'impl': verdict, 'model': lt},
                           no_input=not (verdict == 'OK' and not crit))
-        ctx.record('c12/%s' % core.digest([c_min(c), a]), verdict)
+        # second sentence of the property: a reported counterexample word is a genuine difference, right polarity, minimal length
+        rep = reported(out) if verdict != 'RAISED' else []
+        cex_bad = None
+        if rep and hasattr(ex, 'langs'):
+            try:
+                L = ex.langs(c['inst'], a)
+            except Exception:
+                L = None
+            if L is None:
+                ctx.count(ex.name + ':counterexample-for-an-answer-the-oracle-cannot-read')
+            else:
+                for w, extra in rep:
+                    cex_bad = judge_counterexample(w, extra, L[0], L[1], getattr(ex, 'minimal_cex', True))
+                    if cex_bad:
+                        ctx.violation(cex_bad, {'case': c_min(c), 'answer': a, 'out': out, 'word': w, 'extra': extra})
+                        break
+                ctx.count(ex.name + ':counterexample-checked')
+        order_dependent_raise = getattr(ex, 'may_raise', False) and lt is not None and lt.get('ok') == 'ERROR'
+        if order_dependent_raise:
+            # check_dfa_accepts_rejects has no try/except and walks two SETS of words: whether it meets an offending word (prints it)
+            # or a word it cannot run (raises) first depends on the iteration order; the model raises whenever some listed word cannot be run
+            ctx.count(ex.name + ':raise-or-report-depends-on-set-order')
+        elif lx is not None and verdict != 'RAISED' and not (ex.name == 'dfa2regexp' and lt is not None and lt.get('ok') == 'ERROR'):
+            m = lx.get('ok', 'ERR') if isinstance(lx, dict) else 'ERR'
+            use_len = getattr(ex, 'minimal_cex', True)
+            mine = None if not rep else [len(rep[0][0]) if use_len else 0, rep[0][1]]
+            model = None if m is None else ([len(m['word']) if use_len else 0, m['extra']] if isinstance(m, dict) else 'ERR')
+            if mine != model:
+                ctx.violation('correspondence:counterexample:' + ex.name, {'case': c_min(c), 'answer': a, 'impl': out, 'model': lx},
+                              no_input=cex_bad is None)
+        if getattr(ex, 'may_raise', False):
+            ctx.record('c12/%s' % core.digest([c_min(c), a]), 'OK' if verdict == 'OK' else 'NOT-OK')
+        else:
+            ctx.record('c12/%s' % core.digest([c_min(c), a]), [verdict, [[len(w) if getattr(ex, 'minimal_cex', True) else 0, e] for w, e in rep]])
         ctx.count('%s:%s' % (ex.name, verdict))
         ctx.case({'name': c['name'], 'inst': c['inst'], 'answer': a[:200]}, k > 0)
 
